@@ -1,11 +1,11 @@
 SPECIFICATION McSpec
 CONSTANTS
-  Ops = {"sa_accept", "cool"}
+  Ops = {"sa_accept", "cool", "nested", "update_best"}
   LoadStacks <- McLoadStacks
   MaxN = 0
   Ind <- Ind6
   MaxLen = 1
   Mode = "sa"
 INVARIANT TypeOK Total
-PROPERTY SurvivorOnly Metropolis CoolOnce
+PROPERTY SurvivorOnly Metropolis CoolOnce BestApart
 CHECK_DEADLOCK FALSE
